@@ -1088,7 +1088,35 @@ def cumsum(a):
     return a.cumsum()
 
 
+FLOAT_ADD_ORDER = [False]
+
+
+def _fadd(x, y):
+    """x + y. Opt-in (FLOAT_ADD_ORDER): IEEE addition - commutative, NOT associative - as an uninterpreted binary
+    function with the commutativity instance of every term that is built; (a+b)+c and (a+c)+b are then different
+    terms, as they are different floats for some a, b, c."""
+    if not FLOAT_ADD_ORDER[0]:
+        return _num(x) + _num(y)
+    import z3
+    from . import core
+    zx, zy = core._z(_num(x)), core._z(_num(y))
+    zx = z3.ToReal(zx) if z3.is_int(zx) else zx
+    zy = z3.ToReal(zy) if z3.is_int(zy) else zy
+    F = z3.Function("float_add", z3.RealSort(), z3.RealSort(), z3.RealSort())
+    core.Ctx.cur.assume(F(zx, zy) == F(zy, zx))
+    return core.SNum(F(zx, zy))
+
+
 def mean(a, axis=None):
+    if axis == 0 and isinstance(a, (list, tuple)) and a and all(isinstance(r, SArray) for r in a) and len({len(r.items) for r in a}) == 1:
+        # numpy reduces the rows of the stacked array one after the other: ((r0 + r1) + r2) + ...
+        out = []
+        for col in zip(*[r.items for r in a]):
+            acc = col[0]
+            for v in col[1:]:
+                acc = _fadd(acc, v)
+            out.append(_num(acc) / len(a))
+        return SArray(out, float64)
     if axis is not None:
         raise Unsupported("mean(axis=)")
     return (array(a) if not isinstance(a, SArray) else a).mean()
